@@ -337,10 +337,11 @@ def main(chk):
         'all interleavings (<= 2 waiters, <= 2 admin commands chosen by the solver, bounded steps), whether a waiter can be parked forever '
         'while the pool is not paused, or get past the gate on a stale Notify permit while it IS paused and no RESUME has notified since the waiter looked. '
         '(O3) ConnectionPool::from_config replacing a PAUSED pool: the replacement shares the old pool\'s pause flag and Notify (or wakes its waiters), so that a later '
-        'RESUME reaches the clients parked on the old object. (H) the gate\'s position in Client::handle, transaction and session mode.')
+        'RESUME reaches the clients parked on the old object. (O4) THE ADMIN CONSOLE: admin::handle_admin from MIR on PAUSE / RESUME (all pools, one pool by "db,user", an unknown pool, a malformed argument) over two registered pools: exactly the named '
+        'pools change state, RESUME notifies exactly the pools it resumes, commands naming no pool are answered with an error. (H) the gate\'s position in Client::handle, transaction and session mode.')
     chk.assumptions += [
         'Tokio Notify semantics as documented (and as read in tokio 1.29.1 sync/notify.rs); AtomicBool accesses sequentially consistent on one location',
-        '"no new transaction while paused" (the call site of wait_paused in Client::handle), admin command parsing and per-pool vs global pause are outside the claim',
+        'the bounded model check (O2) abstracts the admin commands to pause()/resume() on one pool; which pools a command names is decided by O4, the gate\'s call site by the handle family',
         'bounds: <= 2 waiters each calling wait_paused once, <= 2 admin commands, schedules of <= 14 (18 thorough) steps',
     ]
     prog = chk.program('on')
@@ -430,6 +431,10 @@ def main(chk):
         o3_reload_paused(chk, prog)
     except Inconclusive as e:
         chk.note_inconclusive('O3-reload-paused: %s' % e)
+    try:
+        o4_admin(chk, prog)
+    except Inconclusive as e:
+        chk.note_inconclusive('O4-admin-pause-resume: %s' % e)
     # the gate's position in the client loop: executed Client::handle sessions with PAUSE / RESUME arriving while the client is idle
     hobl.handle_obligations(chk, prog, {'C16'}, ['pause'])
 
@@ -443,6 +448,103 @@ def c16_reload_paused():
         return (r.get('released_after_resume') is False, 'native: a client parked in wait_paused, then a RELOAD that re-creates the pool, then RESUME of every pool: the client is %s (%r)' %
                 ('STILL parked' if r.get('released_after_resume') is False else 'released', r))
     return f
+
+
+@expectation('c16_admin')
+def c16_admin():
+    """Native: the real handle_admin on PAUSE / RESUME commands over two registered pools: which pools are paused afterwards."""
+    def f(res):
+        for r in res:
+            if 'error' in r or 'panic' in r:
+                return False, 'native: %r' % (r,)
+            if r.get('paused_after') != r.get('want'):
+                return True, 'native: after %r the pools (db1/u1, db2/u2) are paused: %r, required %r' % (r.get('commands'), r.get('paused_after'), r.get('want'))
+        return False, 'native: %r' % (res,)
+    return f
+
+
+ADMIN_CASES = [
+    # (commands, paused before, paused after (db1/u1, db2/u2), pools whose Notify the LAST command must wake)
+    (['PAUSE'], (False, False), (True, True), ()),
+    (['pause;'], (False, False), (True, True), ()),
+    (['PAUSE db1,u1'], (False, False), (True, False), ()),
+    (['PAUSE db2,u2'], (False, True), (False, True), ()),
+    (['PAUSE nodb,u1'], (False, False), (False, False), (), True),
+    (['PAUSE db1'], (False, False), (False, False), (), True),
+    (['RESUME'], (True, True), (False, False), (0, 1)),
+    (['RESUME db2,u2'], (True, True), (True, False), (1,)),
+    (['resume db1,u1;'], (True, False), (False, False), (0,)),
+    (['RESUME db1,u2'], (True, True), (True, True), (), True),
+]
+
+
+def o4_admin(chk, prog):
+    """The admin console's PAUSE / RESUME: which pools handle_admin pauses, resumes and wakes."""
+    from checks import fromconfig as FC
+    from mirsym.models.util import ok
+    ob = chk.begin('O4-admin-pause-resume', 'admin::handle_admin (real coroutine) on PAUSE / RESUME commands (all pools, one pool by "db,user", an unknown pool, a malformed argument) over two '
+                   'registered pools: exactly the named pools change their paused flag; RESUME calls notify_waiters on the Notify of exactly the pools it resumes (that is what '
+                   'releases the clients parked there, O1/O2); a command naming no pool changes nothing and is answered with an error', {'cases': len(ADMIN_CASES)})
+    ha = prog.funcs.get('handle_admin')
+    if ha is None:
+        raise Inconclusive('cannot locate admin::handle_admin')
+    ip = chk.interp(prog, 'O4-admin-pause-resume')
+    install_stats_noops(ip)
+    base = list(ip.overrides)
+
+    def harness(ip_):
+        ip_.overrides[:] = base
+        k = ip_.choose(len(ADMIN_CASES), 'admin_case')
+        case = ADMIN_CASES[k]
+        cmds, before, after, wake = case[:4]
+        want_err = len(case) > 4 and case[4]
+        pools = []
+        m = FC.current_pools(ip_)
+        names = prog.src.structs['PoolIdentifier']
+        for i, (db, us) in enumerate((('db1', 'u1'), ('db2', 'u2'))):
+            cp, _ = mk_pool(ip_, prog, [[mk_addr(ip_, prog, i, 1)]], [MapV('hashmap')])
+            deref(ip_, getf(prog, cp, 'ConnectionPool', 'paused')).fields[0] = BV(1, int(before[i]))
+            setf(prog, cp, 'ConnectionPool', 'paused_waiter', Ptr(Cell(Opaque('Notify', 'notify%d' % i), 'notify%d' % i)))
+            vals = {'db': rstring(db), 'user': rstring(us)}
+            m.entries.append([Agg([vals[n] for n in names], 'PoolIdentifier', list(names)), Cell(cp, 'pool%d' % i)])
+            pools.append(cp)
+        woken = []
+
+        def m_notify_waiters(c, n):
+            v = deref(ip_, n) if isinstance(n, Ptr) else n
+            woken.append(v.tag if isinstance(v, Opaque) else repr(v))
+            return unit()
+        ip_.overrides.insert(0, (re.compile(r'^(?:tokio::sync::)?Notify::notify_waiters$'), m_notify_waiters))
+        st = StreamV([], 'admin_client')
+        csm = Ptr(Cell(Agg([MapV('hashmap')], 'Lock'), 'csmap'))
+        try:
+            for q in cmds:
+                qb = q.encode()
+                body = [BV(8, x) for x in b'Q' + (len(qb) + 5).to_bytes(4, 'big') + qb + b'\0']
+                ip_.drive(ip_.call_function(ha, [Ptr(Cell(st, 'stream')), Seq(body, 'bytesmut'), csm]))
+        except Panic as p:
+            raise Inconclusive('handle_admin panic: ' + p.msg)
+        ob.nontrivial += 1
+        got = tuple(bool(flag_val(ip_, deref(ip_, getf(prog, cp, 'ConnectionPool', 'paused')).fields[0])) for cp in pools)
+        what = None
+        if got != after:
+            what = 'after %r (pools paused before: %r) the pools are paused: %r, required %r' % (cmds, before, got, after)
+        elif sorted(woken) != sorted('notify%d' % i for i in wake):
+            what = 'after %r the waiters of %r were woken, required: those of %r -- clients parked on a resumed pool that is not notified stay parked' % (cmds, sorted(woken), ['notify%d' % i for i in wake])
+        else:
+            out = bytes(b.v for b in st.out if b.concrete)
+            if want_err and out[:1] != b'E':
+                what = 'the command %r names no registered pool (or is malformed) and is not answered with an error' % (cmds,)
+            elif not want_err and (out[:1] != b'C' or not out.endswith(b'Z\x00\x00\x00\x05I')):
+                what = 'the command %r is not answered with CommandComplete + ReadyForQuery' % (cmds,)
+        if what:
+            chk.report(ob, 'C16/O4/admin-pause-resume', 'admin console: ' + what, {'commands': cmds},
+                       {'commands': [{'op': 'admin_pause_resume', 'commands': cmds, 'before': list(before), 'want': list(after)}], 'expect': ['c16_admin']})
+        if len(ob.samples) < 3:
+            ob.samples.append({'commands': cmds, 'paused_after': list(got), 'woken': list(woken)})
+    ip.explore(harness)
+    chk.absorb(ob, ip)
+    chk.end(ob)
 
 
 def o3_reload_paused(chk, prog):
